@@ -368,6 +368,10 @@ fn run_all(ctx: &mut Ctx) {
     // (wrapper-augmented e2e programs that do not compile are retried without wrappers by keeping both)
     let mut progs: Vec<(String, String)> = vec![];
     for s in snippets(tier) {
+        // (the divergence-placement family adds no hint kind; quick leaves it to the other execution checks)
+        if tier == Tier::Quick && s.name.starts_with("extra:diverge:") {
+            continue;
+        }
         if let Some(plain) = &s.plain {
             let mut d = Dbs::default();
             if d.compile(&Cfg::DEFAULT, &s.code).is_err() {
